@@ -2,7 +2,7 @@
 use crate::common::frame::{FrameHeader, FrameWriter, FunctionField, frame_ok, frame_ok_p};
 use crate::common::traits::{Loggable, Serialize};
 use crate::common::serialize::{bit, reported, refused, reported_reg, refused_reg, be16_at};
-use crate::server::handler::{RequestHandler, HandlerCall, HandlerEvent};
+use crate::server::handler::{RequestHandler, HandlerCall, HandlerEvent, HState, hview};
 use crate::server::response::{BitWriter, RegisterWriter};
 use crate::decode::DecodeLevel;
 use crate::server::reply_spec::*;
@@ -49,13 +49,13 @@ pub proof fn lemma_exc_frame(tcp: bool, b: Seq<u8>, header: FrameHeader, f: Func
 {
     crate::common::frame::lemma_frame_ok_p(tcp, b, b.len() as int, header, fcv(f) | 0x80, &e, exc_body(e));
 }
-pub proof fn lemma_read_bits_reply<H: RequestHandler + ?Sized, T: Fn(u16) -> Result<bool, ExceptionCode>>(
-    tcp: bool, b: Seq<u8>, header: FrameHeader, f: FunctionCode, h: &H, coils: bool, bits: &BitWriter<T>)
+pub proof fn lemma_read_bits_reply<T: Fn(u16) -> Result<bool, ExceptionCode>>(
+    tcp: bool, b: Seq<u8>, header: FrameHeader, f: FunctionCode, h: HState, coils: bool, bits: &BitWriter<T>)
     requires
         frame_ok(tcp, b, b.len() as int, header, fcv(f), bits)
             || exists|e: ExceptionCode| #[trigger] bits.ser_exc(e) && frame_ok(tcp, b, b.len() as int, header, fcv(f) | 0x80, &e),
         forall|a: u16, res: Result<bool, ExceptionCode>| #[trigger] bits.getter.ensures((a,), res) ==>
-            (if coils { h.may_read_coil(a, res) } else { h.may_read_discrete_input(a, res) }),
+            (if coils { (h.may_coil)(a, res) } else { (h.may_di)(a, res) }),
     ensures read_bits_reply(tcp, b, header, f, h, coils, bits.range.inner),
 {
     let range = bits.range.inner;
@@ -75,13 +75,13 @@ pub proof fn lemma_read_bits_reply<H: RequestHandler + ?Sized, T: Fn(u16) -> Res
         lemma_exc_frame(tcp, b, header, f, e);
     }
 }
-pub proof fn lemma_read_regs_reply<H: RequestHandler + ?Sized, T: Fn(u16) -> Result<u16, ExceptionCode>>(
-    tcp: bool, b: Seq<u8>, header: FrameHeader, f: FunctionCode, h: &H, holding: bool, regs: &RegisterWriter<T>)
+pub proof fn lemma_read_regs_reply<T: Fn(u16) -> Result<u16, ExceptionCode>>(
+    tcp: bool, b: Seq<u8>, header: FrameHeader, f: FunctionCode, h: HState, holding: bool, regs: &RegisterWriter<T>)
     requires
         frame_ok(tcp, b, b.len() as int, header, fcv(f), regs)
             || exists|e: ExceptionCode| #[trigger] regs.ser_exc(e) && frame_ok(tcp, b, b.len() as int, header, fcv(f) | 0x80, &e),
         forall|a: u16, res: Result<u16, ExceptionCode>| #[trigger] regs.getter.ensures((a,), res) ==>
-            (if holding { h.may_read_holding_register(a, res) } else { h.may_read_input_register(a, res) }),
+            (if holding { (h.may_hr)(a, res) } else { (h.may_ir)(a, res) }),
     ensures read_regs_reply(tcp, b, header, f, h, holding, regs.range.inner),
 {
     let range = regs.range.inner;
@@ -127,24 +127,25 @@ pub proof fn lemma_write_reply<S: Serialize>(tcp: bool, b: Seq<u8>, header: Fram
 //@|                || exists|e: ExceptionCode| #[trigger] resp.ser_exc(e) && frame_ok(old(writer).is_tcp(), r->Ok_0@, r->Ok_0@.len() as int, header, fcv(function) | 0x80, &e),
 //@|            Err(ex) => frame_ok(old(writer).is_tcp(), r->Ok_0@, r->Ok_0@.len() as int, header, fcv(function) | 0x80, &ex),
 //@|        }),
-//@|        !(r matches Err(RequestError::Exception(_))),
+//@|        r is Err ==> r->Err_0 is Internal,
 
 impl<'a> Request<'a> {
 // [C01] the reply is the reference server's; [C02] reads leave the application untouched, a write invokes the matching handler exactly once
-//@fn rodbus/src/server/request.rs | Request<'a>::get_reply | tags=C01,C02,C20
+// R15: `handler: &mut dyn RequestHandler` -> `&mut H, H: RequestHandler + ?Sized` (static instead of dynamic dispatch of the same methods)
+//@fn rodbus/src/server/request.rs | Request<'a>::get_reply | tags=C01,C02,C20 | sub=fn get_reply<'b>(=>fn get_reply<'b, H: RequestHandler + ?Sized>( | sub=&mut dyn RequestHandler=>&mut H
 //@|    requires self.wf(), old(writer).is_tcp() ==> header.tx_id is Some,
 //@|    ensures final(writer).is_tcp() == old(writer).is_tcp(),
-//@|        spec_call(self@) is None ==> final(handler).log() == old(handler).log(),
+//@|        spec_call(self@) is None ==> final(handler).log() == old(handler).log() && hview(&*final(handler)) == hview(&*old(handler)),
 //@|        spec_call(self@) matches Some(c) ==> final(handler).log().len() == old(handler).log().len() + 1
 //@|            && final(handler).log().subrange(0, old(handler).log().len() as int) == old(handler).log()
 //@|            && final(handler).log().last().call == c,
-//@|        r is Ok ==> r->Ok_0@.len() <= 260 && reply_ok(old(writer).is_tcp(), r->Ok_0@, header, self@, &*old(handler),
+//@|        r is Ok ==> r->Ok_0@.len() <= 260 && reply_ok(old(writer).is_tcp(), r->Ok_0@, header, self@, hview(&*old(handler)),
 //@|            if spec_call(self@) is Some { final(handler).log().last().result } else { Ok(()) }),
-//@|        !(r matches Err(RequestError::Exception(_))),
-//@exit 0| if r__ is Ok { lemma_read_bits_reply(old(writer).is_tcp(), r__->Ok_0@, header, function, &*old(handler), true, &bits); }
-//@exit 1| if r__ is Ok { lemma_read_bits_reply(old(writer).is_tcp(), r__->Ok_0@, header, function, &*old(handler), false, &bits); }
-//@exit 2| if r__ is Ok { lemma_read_regs_reply(old(writer).is_tcp(), r__->Ok_0@, header, function, &*old(handler), true, &registers); }
-//@exit 3| if r__ is Ok { lemma_read_regs_reply(old(writer).is_tcp(), r__->Ok_0@, header, function, &*old(handler), false, &registers); }
+//@|        r is Err ==> r->Err_0 is Internal,
+//@exit 0| if r__ is Ok { lemma_read_bits_reply(old(writer).is_tcp(), r__->Ok_0@, header, function, hview(&*old(handler)), true, &bits); }
+//@exit 1| if r__ is Ok { lemma_read_bits_reply(old(writer).is_tcp(), r__->Ok_0@, header, function, hview(&*old(handler)), false, &bits); }
+//@exit 2| if r__ is Ok { lemma_read_regs_reply(old(writer).is_tcp(), r__->Ok_0@, header, function, hview(&*old(handler)), true, &registers); }
+//@exit 3| if r__ is Ok { lemma_read_regs_reply(old(writer).is_tcp(), r__->Ok_0@, header, function, hview(&*old(handler)), false, &registers); }
 //@exit 4| if r__ is Ok { lemma_write_reply(old(writer).is_tcp(), r__->Ok_0@, header, function, result, request.index, if request.value { 0xFF00u16 } else { 0u16 }, handler.log().last().result); }
 //@exit 5| if r__ is Ok { lemma_write_reply(old(writer).is_tcp(), r__->Ok_0@, header, function, result, request.index, request.value, handler.log().last().result); }
 //@exit 6| if r__ is Ok { lemma_write_reply(old(writer).is_tcp(), r__->Ok_0@, header, function, result, items.range.start, items.range.count, handler.log().last().result); }
